@@ -197,7 +197,8 @@ def cvinfo(i):
 def cenv(case, i, e):
     leave = cl((f"Some {e['leave'][str(a)]}" if str(a) in e.get("leave", {}) else "None") for a in range(case["nag"]))
     return (f"{{| eid := {coq_Z(i)}; nag := {case['nag']}; lens := {cnats(e['lens'])}; mode := {MODE[e['mode']]}; "
-            f"leave := {leave}; kind := {ckind(case['obs'])}; unaligned := {'true' if e.get('unaligned') else 'false'} |}}")
+            f"leave := {leave}; kind := {ckind(case['obs'])}; unaligned := {'true' if e.get('unaligned') else 'false'}; "
+            f"join := {cl((f'Some {e['join'][str(a)]}' if str(a) in e.get('join', {}) else 'None') for a in range(case['nag']))} |}}")
 
 
 def ckind(kind):
@@ -259,7 +260,8 @@ def aorder(case):
 def env_params(case, i, e):
     return dict(eid=i, nagents=case["nag"], lens=e["lens"], mode=e["mode"], leave=e.get("leave", {}),
                 kind=case["obs"], akind=case["akind"], unaligned=bool(e.get("unaligned", False)),
-                reversed_out=bool(e.get("reversed_out", False)), rich_info=bool(case.get("rich_info", False)))
+                reversed_out=bool(e.get("reversed_out", False)), rich_info=bool(case.get("rich_info", False)),
+                join=e.get("join", {}))
 
 
 # ------------------------------------------------------------------ the driver
@@ -317,7 +319,7 @@ class C12(vlib.Driver):
                     {"lens": [3, 1], "mode": mode, "leave": leaves[lv] if lv == 2 else {}}]
             if quick and not (copy or akind == "discrete"):
                 continue
-            if quick and akind in ("md2", "dlist") and lv != 0:
+            if quick and akind in ("md2", "dlist", "box1") and lv != 0:
                 continue
             if (lv + (0 if copy else 1)) % 2 == 1:      # half of the grid: every env returns its dicts reversed
                 for e in envs:
@@ -341,7 +343,7 @@ class C12(vlib.Driver):
             return {"str": st, "members": ms}
 
         # seeded runs (half of them over generated observation spaces: rank 0-3 members, 5 dtypes)
-        for _ in range(100 if quick else 1500):
+        for _ in range(80 if quick else 1500):
             N = rng.randint(1, 4)
             nag = rng.randint(1, 3)
             envs = []
@@ -351,8 +353,12 @@ class C12(vlib.Driver):
                 if rng.random() < 0.4:
                     for a in rng.sample(range(nag), rng.randint(1, nag)):
                         leave[str(a)] = rng.randint(1, 4)
+                join = {}
+                if nag > 1 and rng.random() < 0.25:
+                    for a in rng.sample(range(nag), rng.randint(1, nag - 1)):     # at least one agent is there from the start
+                        join[str(a)] = rng.randint(1, 3)
                 envs.append({"lens": lens, "mode": rng.choice(["term", "trunc", "mixed"]), "leave": leave,
-                             "reversed_out": rng.random() < 0.3})
+                             "reversed_out": rng.random() < 0.3, "join": join})
             steps = rng.randint(6, 12) if quick else rng.randint(6, 14)
             cases.append({"kind": "vec", "obs": rng.choice(c12_env.OBS_KINDS) if rng.random() < 0.5 else rand_space(),
                           "akind": rng.choice(c12_env.ACT_KINDS),
@@ -360,6 +366,15 @@ class C12(vlib.Driver):
                           "seed": rng.choice([None, 0, 1, 7, 20, [rng.randrange(30) for _ in range(N)]]),
                           "opt": rng.choice([None, 1, 6]), "rich_info": rng.random() < 0.25,
                           "envs": envs, "actions": actions(steps, nag, N), "aorder": perm(nag, rng.random() < 0.6)})
+        # agents that join late: join before / at / after the episode end, joiner that also leaves, join at step 1
+        for obs, (jn, lv_), copy in itertools.product(("vector", "dict") if quick else ("vector", "dict", "image", "tuple"),
+                                                     (({"1": 1}, {}), ({"1": 2}, {}), ({"1": 3}, {}), ({"1": 4}, {}),
+                                                      ({"0": 2, "2": 1}, {}), ({"1": 1}, {"1": 2}), ({"2": 2}, {"0": 1})), (True,)):
+            envs = [{"lens": [3, 2], "mode": "term", "leave": lv_, "join": jn},
+                    {"lens": [2], "mode": "mixed", "leave": {}, "join": {}, "reversed_out": True},
+                    {"lens": [4, 1], "mode": "trunc", "leave": lv_, "join": jn}]
+            cases.append({"kind": "vec", "obs": obs, "akind": "discrete", "nag": 3, "copy": copy, "seed": 5, "opt": 2,
+                          "envs": envs, "actions": actions(8, 3, 3), "aorder": perm(3)})
         # other multiprocessing start methods (workers import c12_env themselves; ~8 s per run)
         for ctx, obs in ([("spawn", "dict")] if quick else [("spawn", "dict"), ("spawn", "image"), ("forkserver", "tuple"), ("forkserver", "vector")]):
             envs = [{"lens": [2], "mode": "trunc", "leave": {}}, {"lens": [3, 1], "mode": "term", "leave": {"1": 1}}]
@@ -394,7 +409,8 @@ class C12(vlib.Driver):
             cases.append({"kind": "wrap", "obs": rng.choice(c12_env.OBS_KINDS), "akind": rng.choice(c12_env.ACT_KINDS),
                           "nag": nag, "seed": rng.choice([None, 0, 5]), "opt": rng.choice([None, 2, 8]),
                           "env": {"lens": [rng.choice([1, 2, 3, 5]) for _ in range(rng.randint(1, 3))],
-                                  "mode": rng.choice(["term", "trunc", "mixed"]), "leave": leave},
+                                  "mode": rng.choice(["term", "trunc", "mixed"]), "leave": leave,
+                                  "join": ({str(nag - 1): rng.randint(1, 3)} if nag > 1 and rng.random() < 0.3 else {})},
                           "actions": [[x[0] for x in st] for st in actions(rng.randint(6, 12), nag, 1)],
                           "aorder": perm(nag, rng.random() < 0.6)})
         return cases
@@ -613,6 +629,11 @@ class C12(vlib.Driver):
             if bad:
                 return [Violation("shape-dtype", f"vec:shape-dtype:{site}", f"reset: {bad[0]}")]
             for a in range(nag):
+                if f"agent_{a}" not in ref.obs:      # joins later: placeholder observation, empty info
+                    if got.get(a) != [placeholder(sp) for sp in mspaces] or info_at(rs["info"], a, i) or extra_at(rs["info"], a, i):
+                        return [Violation("reset-obs", f"vec:reset-obs:late-joiner",
+                                          f"reset: env {i} agent {a} is not alive yet: got {got.get(a)} / {info_at(rs['info'], a, i)}, expected the placeholder and no info")]
+                    continue
                 want = self._flat(kind, ref.obs[f"agent_{a}"])
                 if got.get(a) != want:
                     return [Violation("reset-obs", f"vec:reset-obs:{site}",
@@ -767,6 +788,8 @@ class C12(vlib.Driver):
         labs += sorted({f"dtype={m['dtype']}" for m in d["members"]} | {f"rank={len(m['shape'])}" for m in d["members"]}
                        | {f"leaf={m['leaf']}" for m in d["members"]})
         labs.append("leavers" if any(e.get("leave") for e in envs) else "no-leavers")
+        if any(e.get("join") for e in envs):
+            labs.append("late-joiners")
         if any(e.get("unaligned") for e in envs):
             labs.append("unaligned-dicts")
         if case.get("rich_info"):
